@@ -414,6 +414,23 @@ def run(binp, cases):
     for i, part in enumerate(parts):
         for j, o in enumerate(part):
             obs[i + j * nproc] = o
+    # histories with a timer are executed twice; a timing accident (seen about once in 2000 such histories on a machine
+    # with a load of 45) does not repeat, a property of the tree does: if the two observations differ the case is skipped
+    timed_idx = [i for i, c in enumerate(cases) if any(e["k"] in ("expire", "expire_old", "pause") for e in c["events"])]
+    if timed_idx:
+        again_cases = [cases[i] for i in timed_idx]
+        shards2 = [(10 + i, again_cases[i::nproc]) for i in range(nproc)]
+        with ThreadPoolExecutor(max_workers=nproc) as ex:
+            parts2 = list(ex.map(lambda s: _run_shard(binp, s[0], s[1]), shards2))
+        for i, part in enumerate(parts2):
+            for j, o2 in enumerate(part):
+                k = timed_idx[i + j * nproc]
+                o1 = obs[k]
+                if o1.get("outcome") == "ok" and (o2.get("outcome") != "ok" or _obs_steps(o1) != _obs_steps(o2)
+                                                   or [s["started"] for s in o1["steps"]] != [s["started"] for s in o2["steps"]]):
+                    obs[k] = {"outcome": "skipped", "steps": [], "tries": o1.get("tries", 1),
+                              "detail": "two executions of this timed history gave different observations: %s | %s" % (
+                                  json.dumps(o1.get("steps"))[:1500], json.dumps(o2.get("steps"))[:1500])}
     # a skipped case is a timing flake of that case and never a failure - but if the driver cannot recognise the lease
     # goroutine of this tree at all, or no history with a timer could be realised, nothing about leases was compared
     if any("not recognisable" in (o.get("detail") or "") for o in obs):
